@@ -147,6 +147,36 @@ Fixpoint bad_grid_all (i : N) (l : list (value * option tyexpr)) (o : list gobs)
 Definition bad_grid (l : list (value * option tyexpr)) (o : list gobs) : list N :=
   firstn 40 (bad_grid_all 0%N l o).
 
+(* the same with the hint WRITTEN in a given spelling (Model.spell): the model
+   resolves it the way __set_name__ does (__orig_class__ / get_type_hints /
+   ClassVar and tunable unwrapping) before the table lookup.  Point i of the
+   grid uses spelling  pattern[i mod length pattern]  -- the harness writes the
+   class statement of point i in exactly that spelling. *)
+Definition grid_match_src (sp : spelling) (dh : value * option tyexpr) (g : gobs) : bool :=
+  match res_to_option (decl_topic_src (fst dh) (spell_opt sp (snd dh))), g with
+  | None, GRaise => true
+  | Some _, GCreated => true
+  | Some t, GBound s => String.eqb (type_string t) s
+  | _, _ => false
+  end.
+
+Fixpoint bad_grid_src_all (pattern cur : list spelling) (i : N)
+         (l : list (value * option tyexpr)) (o : list gobs) : list N :=
+  match l, o with
+  | [], [] => []
+  | dh :: r, g :: ro =>
+      match (match cur with [] => pattern | _ => cur end) with
+      | [] => [i]              (* empty pattern *)
+      | sp :: rest =>
+          if grid_match_src sp dh g then bad_grid_src_all pattern rest (N.succ i) r ro
+          else i :: bad_grid_src_all pattern rest (N.succ i) r ro
+      end
+  | _, _ => [i]                (* lengths differ *)
+  end.
+Definition bad_grid_src (pattern : list spelling) (l : list (value * option tyexpr))
+           (o : list gobs) : list N :=
+  firstn 40 (bad_grid_src_all pattern pattern 0%N l o).
+
 (* ---- @feedback ------------------------------------------------------- *)
 
 Inductive fobs :=
